@@ -1,11 +1,29 @@
 import signal
 from . import ConductorAbort
 
+# Set when a termination signal has been received. An exception raised by a
+# signal handler is discarded by the interpreter if it happens to be raised
+# while a finalizer (`__del__`) is running, so the abort is also recorded here
+# and re-raised from the main flow (see `raise_if_aborted()`).
+_abort_requested = False
+
 
 def register_signal_handlers():
+    global _abort_requested  # pylint: disable=global-statement
+    _abort_requested = False
     signal.signal(signal.SIGINT, _terminate_handler)
     signal.signal(signal.SIGTERM, _terminate_handler)
 
 
+def raise_if_aborted():
+    """
+    Raises `ConductorAbort` if a termination signal was received earlier.
+    """
+    if _abort_requested:
+        raise ConductorAbort()
+
+
 def _terminate_handler(sig, frame):
+    global _abort_requested  # pylint: disable=global-statement
+    _abort_requested = True
     raise ConductorAbort()
